@@ -109,6 +109,17 @@ impl Gates {
     }
 
     /// Is actor `a` asleep inside poll/recvmsg/recvfrom/sendmsg/sendto/epoll_wait?
+    pub fn syscall_nr(&self, a: i64) -> i64 {
+        let tid = match self.tid_of(a) {
+            Some(t) => t,
+            None => return -1,
+        };
+        std::fs::read_to_string(format!("/proc/self/task/{}/syscall", tid))
+            .ok()
+            .and_then(|s| s.split_whitespace().next().and_then(|x| x.parse::<i64>().ok()))
+            .unwrap_or(-1)
+    }
+
     fn in_kernel(&self, a: i64) -> bool {
         let tid = {
             let (m, _) = &*self.0;
@@ -505,6 +516,7 @@ fn run_case(case: &Value, gates: &Gates) -> Value {
     let mut why = String::new();
     let mut last_gen: HashMap<i64, u64> = HashMap::new();
     'sched: for (n, st) in sched.iter().enumerate() {
+
         let a = geti(st, "a");
         let k = gets(st, "k").to_string();
         match actors.get_mut(&a) {
@@ -565,7 +577,13 @@ fn run_case(case: &Value, gates: &Gates) -> Value {
                     match gates.wait_quiescent(a, lg, 3000) {
                         None | Some(St::Running) => {
                             matched = false;
-                            why = format!("step {}: actor {} is blocked in the kernel before '{}'", n, a, k);
+                            why = format!(
+                                "step {}: actor {} is blocked in the kernel (syscall {}) before '{}'",
+                                n,
+                                a,
+                                gates.syscall_nr(a),
+                                k
+                            );
                             break 'sched;
                         },
                         Some(St::Finished) => {
@@ -598,6 +616,8 @@ fn run_case(case: &Value, gates: &Gates) -> Value {
             },
         }
     }
+    // the receive call in progress at the moment the schedule was abandoned (nobody has been released yet)
+    let diverged_call: i64 = if matched { -1 } else { cur_call.load(std::sync::atomic::Ordering::SeqCst) as i64 };
     // let everything run to completion
     gates.free_all();
     let mut hang = false;
@@ -651,5 +671,5 @@ fn run_case(case: &Value, gates: &Gates) -> Value {
     }
     let sends: Vec<Value> = send_results.lock().unwrap().iter().map(|(s, j, ok)| json!([s, j, ok])).collect();
     json!({"id": id, "matched": matched, "why": why, "hang": hang || hung_sender, "calls": calls, "sends": sends,
-           "diverged_in_call": cur_call.load(std::sync::atomic::Ordering::SeqCst)})
+           "diverged_in_call": if matched { -1 } else { diverged_call }})
 }
